@@ -82,6 +82,16 @@ def points(tier: str) -> List[Dict[str, Any]]:
             for second in ((40_000, ("ptr", Y, 4500)), (40_000, ("ptr1", X, 0)), (900_000, ("ptr1", X, 4500)),
                            (3_375_000 + 1000, ("ptr", X, 4500))):
                 pts.append({"delay": delay, "forced": None, "jitter": 0.0, "types": "subs", "events": [(20_000, first), second]})
+    # a service that flaps: learned, withdrawn, announced again so that the new 75 % instant lies within a delay of the
+    # withdrawn copy's (same TTL a few seconds later, or a shorter TTL much later)
+    for delay in (1000, 10_000):
+        for g1, g2 in ((1000, 500), (4000, 3000), (4000, 5500), (4000, 9000), (1000, 11_000)):
+            pts.append({"delay": delay, "forced": None, "jitter": 0.0, "types": "a",
+                        "events": [(100_000, ("ptr", X, 4500)), (g1, ("ptr", X, 0)), (g2, ("ptr", X, 4500))]})
+        for d in (-1.5, -0.5, 0.0, 0.5, 1.5):
+            g2 = int((0.75 * 4500 - 0.75 * 1125) * 1000 - 4000 + d * delay)
+            pts.append({"delay": delay, "forced": None, "jitter": 0.0, "types": "a",
+                        "events": [(100_000, ("ptr", X, 4500)), (4000, ("ptr", X, 0)), (g2, ("ptr", X, 1125))]})
     # pointers already cached when the browser is created (younger / older than half their TTL, shortly before it starts)
     for delay in (1000, 10_000):
         for pre in ([(30_000, ("ptr", X, 4500))], [(30_000, ("ptr", X, 1200))], [(1_000, ("ptr", X, 4500))],
